@@ -105,7 +105,31 @@ func fieldDiff(got, want map[string]string) []string {
 	return d
 }
 
+// c07Reused holds one long-lived layer per (goroutine batch, layer): the
+// zero-allocation usage pattern decodes every response into the same value.
+type c07Reused map[string]decodable
+
 func c07Compare(run *ev.Run, sp *layerSpec, enc []byte, want any, branch string, cs ev.Case, class string) {
+	c07CompareIn(run, sp, enc, want, branch, cs, class, nil)
+}
+
+func c07CompareIn(run *ev.Run, sp *layerSpec, enc []byte, want any, branch string, cs ev.Case, class string, reused c07Reused) {
+	if reused != nil {
+		l, ok := reused[sp.Name]
+		if !ok {
+			l = sp.New()
+			reused[sp.Name] = l
+		}
+		var err error
+		pv, _ := safe(func() { err = l.DecodeFromBytes(exactCopy(enc), gopacket.NilDecodeFeedback) })
+		if pv == nil && err == nil {
+			if d := fieldDiff(valueFields(l), valueFields(want)); len(d) > 0 {
+				first := strings.SplitN(d[0], ":", 2)[0]
+				run.Violation("C07:"+sp.Name+":field-on-reused-layer:"+first, fmt.Sprintf("%s decoded %x (branch %s) into a layer used before with wrong fields: %v", sp.Name, enc, branch, d), cs, nil)
+				return
+			}
+		}
+	}
 	run.Eval(1)
 	l := sp.New()
 	var err error
@@ -182,13 +206,11 @@ func c07Exec(run *ev.Run, c ev.Case) {
 		c.Decode(&o)
 		sp := specByName(o.Layer)
 		r := rng(o.Seed, "c07"+o.Layer)
-		var enc []byte
-		var want any
-		var br string
+		reused := c07Reused{}
 		for i := 0; i <= o.Index; i++ {
-			enc, want, br = sp.Gen(r)
+			enc, want, br := sp.Gen(r)
+			c07CompareIn(run, sp, enc, want, br, c, "replay", reused)
 		}
-		c07Compare(run, sp, enc, want, br, c, "replay")
 	case "batch":
 		var b c07Batch
 		c.Decode(&b)
@@ -196,9 +218,10 @@ func c07Exec(run *ev.Run, c ev.Case) {
 		case "random":
 			sp := specByName(b.Layer)
 			r := rng(b.Seed, "c07"+b.Layer)
+			reused := c07Reused{}
 			for i := 0; i < b.Count; i++ {
 				enc, want, br := sp.Gen(r)
-				c07Compare(run, sp, enc, want, br, ev.MkCase("one", c07One{Layer: b.Layer, Seed: b.Seed, Index: i}), fmt.Sprint(len(enc)%8))
+				c07CompareIn(run, sp, enc, want, br, ev.MkCase("one", c07One{Layer: b.Layer, Seed: b.Seed, Index: i}), fmt.Sprint(len(enc)%8), reused)
 				if i == 0 {
 					run.Sample(sp.Name, map[string]any{"layer": sp.Name, "encoding": ev.Hex(enc), "branch": br, "value": valueFields(want)})
 				}
